@@ -379,28 +379,37 @@ func historyDiffers(a, b *input) (bool, digest, digest) {
 	return ds[0].key() != ds[2].key(), ds[0], ds[2]
 }
 
-var typifyRe = regexp.MustCompile(`Typify \S+ `)
+// sentinel shows the types the predeclared true and false have in this process.
+var sentinel = &input{Name: "sentinel", Prog: true, Run: true, Files: map[string]string{"main.go": "package main\nfunc main() {\n\tvar x any = true\n\tvar y any = false\n\tswitch x.(type) {\n\tcase bool:\n\t\tprintln(\"bool\")\n\tdefault:\n\t\tprintln(\"other\")\n\t}\n\tswitch y.(type) {\n\tcase bool:\n\t\tprintln(\"bool\")\n\tdefault:\n\t\tprintln(\"other\")\n\t}\n\tprintln(false || true, true && false)\n}\n"}}
 
-// onlyBoolConstantType reports whether two disassemblies differ only in the type named by
-// Typify instructions — the symptom of finding history-universe-bool: the type info of the
-// predeclared true/false, shared by all builds of a process, keeps the type a previous build
-// gave it.
-func onlyBoolConstantType(a, b string) bool {
-	la, lb := strings.Split(a, "\n"), strings.Split(b, "\n")
-	if len(la) != len(lb) {
+// pollutesBool: in a fresh process, does building b change what the sentinel builds to? That
+// is the mechanism of finding history-universe-bool (b leaves the shared type info of the
+// predeclared true / false with a type of its own).
+func pollutesBool(b *input) bool {
+	ds, err := freshSequence([]*input{sentinel, b, sentinel})
+	return err == nil && ds[0].key() != ds[2].key()
+}
+
+var boolRe = regexp.MustCompile(`\b(true|false)\b`)
+
+func mentionsBool(in *input) bool {
+	if in.Files != nil {
+		for _, v := range in.Files {
+			if boolRe.MatchString(v) {
+				return true
+			}
+		}
 		return false
 	}
-	diff := false
-	for i := range la {
-		if la[i] == lb[i] {
-			continue
+	found := false
+	filepath.WalkDir(in.Dir, func(path string, d fs.DirEntry, err error) error {
+		if err == nil && !d.IsDir() && (in.Main == "" || !in.Prog || filepath.Base(path) == in.Main) {
+			src, _ := os.ReadFile(path)
+			found = found || boolRe.Match(src)
 		}
-		if typifyRe.ReplaceAllString(la[i], "Typify T ") != typifyRe.ReplaceAllString(lb[i], "Typify T ") {
-			return false
-		}
-		diff = true
-	}
-	return diff
+		return nil
+	})
+	return found
 }
 
 // shrinkPair deletes lines of b's then a's main source while the pair stays history-dependent
@@ -662,21 +671,54 @@ func run(c *hx.Ctx) error {
 			cand = append(cand, i)
 		}
 	}
-	historyReported := 0
-	for k := 0; k < c.N(500, 6000) && len(cand) > 1; k++ {
+	// every triple in its own fresh process (whatever a build leaves behind stays in the process,
+	// so one polluted process would blur which pair is responsible), four at a time
+	type triple struct {
+		a, b   *input
+		d1, d2 digest
+		err    error
+	}
+	var triples []*triple
+	for k := 0; k < c.N(300, 3000) && len(cand) > 1; k++ {
 		ia, ib := cand[c.R.Intn(len(cand))], cand[c.R.Intn(len(cand))]
-		if ia == ib || ins[ia].Prog != ins[ib].Prog && c.R.Intn(2) == 0 {
-			continue
+		if ia != ib {
+			triples = append(triples, &triple{a: ins[ia], b: ins[ib]})
 		}
-		a, b := ins[ia], ins[ib]
-		d1 := buildOnce(a)
-		buildOnce(b)
-		d2 := buildOnce(a)
+	}
+	work := make(chan *triple)
+	done := make(chan bool)
+	for w := 0; w < 4; w++ {
+		go func() {
+			for t := range work {
+				ds, err := freshSequence([]*input{t.a, t.b, t.a})
+				if err != nil {
+					t.err = err
+				} else {
+					t.d1, t.d2 = ds[0], ds[2]
+				}
+			}
+			done <- true
+		}()
+	}
+	for _, t := range triples {
+		work <- t
+	}
+	close(work)
+	for w := 0; w < 4; w++ {
+		<-done
+	}
+	historyReported := 0
+	for _, t := range triples {
+		if t.err != nil {
+			return fmt.Errorf("history triple: %v", t.err)
+		}
 		res.Hist("history-triples")
-		if d1.key() == d2.key() {
+		if t.d1.key() == t.d2.key() {
 			continue
 		}
-		if c.HasFinding("history-universe-bool") && d1.Err == "" && d2.Err == "" && d1.UsedVars == d2.UsedVars && onlyBoolConstantType(d1.asmText, d2.asmText) {
+		// known finding history-universe-bool: B leaves the predeclared true / false with a type
+		// of its own (seen on the sentinel) and A mentions them
+		if c.HasFinding("history-universe-bool") && mentionsBool(t.a) && pollutesBool(t.b) {
 			res.Hist("history-triples-matching-known-finding")
 			continue
 		}
@@ -684,19 +726,13 @@ func run(c *hx.Ctx) error {
 			continue
 		}
 		historyReported++
-		sa, sb := a, b
-		detail := firstDiffLine(d1.asmText+d1.Err, d2.asmText+d2.Err)
-		if fresh, f1, f2 := historyDiffers(a, b); fresh {
-			sa, sb = shrinkPair(a, b)
-			if ok, g1, g2 := historyDiffers(sa, sb); ok {
-				f1, f2 = g1, g2
-			}
-			detail = firstDiffLine(f1.AsmText+f1.Err, f2.AsmText+f2.Err)
-		} else {
-			detail += " (only after the builds that preceded it in this run)"
+		sa, sb := shrinkPair(t.a, t.b)
+		f1, f2 := t.d1, t.d2
+		if ok, g1, g2 := historyDiffers(sa, sb); ok {
+			f1, f2 = g1, g2
 		}
-		res.AddBreak(proto.Break{Kind: "property", Name: "history-dependent-build", Case: a.Name + " / " + b.Name + " / " + a.Name, Human: "=== A ===\n" + sa.human() + "\n=== B ===\n" + sb.human(),
-			Impl: detail, Model: "the two builds of A coincide"})
+		res.AddBreak(proto.Break{Kind: "property", Name: "history-dependent-build", Case: t.a.Name + " / " + t.b.Name + " / " + t.a.Name, Human: "=== A ===\n" + sa.human() + "\n=== B ===\n" + sb.human(),
+			Impl: firstDiffLine(f1.AsmText+f1.Err, f2.AsmText+f2.Err), Model: "the two builds of A coincide"})
 	}
 
 	// child processes
